@@ -173,6 +173,7 @@ def ex_pair(ctx, case, ratesB, alpha=0.05, scale=False, days=365, factors=(1.0, 
     start = datetime.datetime(2010, 1, 1, tzinfo=UTC)
     end = start + datetime.timedelta(days=days)
     rc = {"exec": "pair", "args": {"case": case, "ratesB": ratesB, "alpha": alpha, "scale": scale, "days": days, "factors": list(factors)}}
+    ctx.current_case = rc
     factors = tuple(factors)
     _fa, _fb, _c, _w = _build_pair(case, ratesB, start, end, factors)
     A = numpy.array(_fa.data, dtype=float)          # the rates the forecasts actually carry
@@ -287,6 +288,7 @@ def ex_prims(ctx, x, m):
     ctx.mon("post:_w_test_ndarray", 1)
     ref = w_ref(x, m)
     rc = {"exec": "prims", "args": {"x": x, "m": m}}
+    ctx.current_case = rc
     ctx.count(1)
     if ref is None:
         return
